@@ -132,6 +132,8 @@ def _set_data(ctx: Ctx, c: Collector) -> None:
     pr += _gated(s, me, uses[:1], "writing the set_data buffer")
     # layout: buffer[eid][attr][src_full_id] = val
     st = s.of_kind("store")
+    if not st:
+        pr.append("set_data stores nothing")
     if st:
         e = st[-1]
         if len(e.iters) == 3:
